@@ -652,3 +652,69 @@ def segment_intersection(A, B, C, D):
     d2 = min(point_segment_dist2(A, C, D)[0], point_segment_dist2(B, C, D)[0],
              point_segment_dist2(C, A, B)[0], point_segment_dist2(D, A, B)[0])
     return "disjoint", d2
+
+
+def restrict_state(st, lo, hi):
+    """State of ``st`` restricted to [lo, hi] (lo < hi inside the interval):
+    clamped at lo and hi, interior knots of st inside (lo, hi) kept.  Works on
+    homogeneous coordinates for rational states."""
+    lo, hi = frac(lo), frac(hi)
+    p = st.p
+    Ut = [lo] * (p + 1) + [u for u in st.U if lo < u < hi] + [hi] * (p + 1)
+    if st.w is None:
+        H = [pt + (F(1),) for pt in st.P]
+    else:
+        H = [tuple(wi * c for c in pt) + (wi,) for pt, wi in zip(st.P, st.w)]
+    hom = State(st.U, p, H, None, False)
+    nt = len(Ut) - p - 1
+    Q = [None] * nt
+    for k in range(len(Ut) - 1):
+        a, b = Ut[k], Ut[k + 1]
+        if a == b:
+            continue
+        xs = interior_samples(a, b, p + 1)
+        A = [basis_all(Ut, p, x)[k - p: k + 1] for x in xs]
+        B = [list(ceval(hom, x)) for x in xs]
+        X = linsolve(A, B)
+        if X is None:
+            raise OracleError("local basis singular")
+        for j in range(p + 1):
+            i = k - p + j
+            val = tuple(X[j])
+            if Q[i] is None:
+                Q[i] = val
+            elif Q[i] != val:
+                raise OracleError("restrict_state: inconsistent")
+    if st.w is None:
+        return State(Ut, p, [q[:-1] for q in Q], None, st.scalar)
+    w = [q[-1] for q in Q]
+    return State(Ut, p, [tuple(c / q[-1] for c in q[:-1]) for q in Q], w, st.scalar)
+
+
+def same_function_on(A, B, lo, hi):
+    """Same function on [lo, hi] (both defined there).  None or a witness."""
+    rational = A.w is not None or B.w is not None
+    m = (A.p + B.p + 1) if rational else (max(A.p, B.p) + 1)
+    bk = [u for u in union_breaks(A.U, B.U) if lo < u < hi]
+    bk = [lo] + bk + [hi]
+    for a, b in zip(bk[:-1], bk[1:]):
+        for u in interior_samples(a, b, m):
+            x, y = ceval(A, u), ceval(B, u)
+            if x != y:
+                return (u, x, y)
+    return None
+
+
+def continuity_order(st, z):
+    """Largest k <= p such that derivatives 0..k of a polynomial state are
+    continuous at the interior breakpoint z (-1 when it jumps).  p means the
+    two neighbouring pieces are one polynomial."""
+    order = st.p
+    for c in range(st.dim):
+        L = deriv_values(st, c, z, -1, st.p)
+        R = deriv_values(st, c, z, +1, st.p)
+        k = 0
+        while k <= st.p and L[k] == R[k]:
+            k += 1
+        order = min(order, k - 1)
+    return order
